@@ -10,9 +10,10 @@ import traceback
 import z3
 
 from . import sym
-from .sym import (State, SInt, SBool, SBytes, SStr, SFloat, SOpaque, SObj, SExc, Chunk,
+from .sym import (State, SInt, SBool, SBytes, SStr, SFloat, SOpaque, SObj, SExc, SCond, Chunk,
                   Raised, OutOfSubset, EngineError, Infeasible, I, B, mk_int, mk_bool)
 from .interp import Interp, qualname, pytype, function_ast
+from .loops import CutPath
 
 
 # ---------------------------------------------------------------- type specs
@@ -286,6 +287,26 @@ class Registry:
 def values_equal(st, a, b):
     """(term-or-bool, exact).  Type-sensitive: True is not 1, bytes is not
     bytearray (the properties speak of 'equal in value and Python type')."""
+    if a is b:
+        return True, True
+    if isinstance(a, SCond) or isinstance(b, SCond):
+        # cond ? x : y  compared branch-wise, each branch under its condition
+        from .dsl import conj, implies, neg
+        x, other = (a, b) if isinstance(a, SCond) else (b, a)
+        out, exact = [], True
+        for val, c in ((True, x.cond), (False, z3.Not(x.cond))):
+            if not st.can(c):
+                continue
+            with scope(st):
+                # decided inside the scope: the branch value may be a thunk whose facts live only here
+                st.assume(c)
+                t, e = values_equal(st, x.a if val else x.b, other)
+                if isinstance(t, SBool):
+                    t = t.t
+                ok = t is True or (t is not False and st.check(z3.Not(t)) == z3.unsat)
+            exact = exact and e
+            out.append(ok)
+        return all(out), exact
     if a is None or b is None:
         return (a is None and b is None), True
     ta, tb = pytype(a), pytype(b)
@@ -364,7 +385,8 @@ class Result:
 def scope(st):
     st.solver.push()
     snap = (len(st.pc), dict(st.refine), dict(st.pack_cache), set(st.facts_done), dict(st.str_lits),
-            len(st.obligations), len(st.decisions), list(st.prefix), list(st.pending))
+            len(st.obligations), len(st.decisions), list(st.prefix), list(st.pending), dict(st.decided),
+            dict(st.cond_defs))
     try:
         yield
     finally:
@@ -377,6 +399,8 @@ def scope(st):
         del st.decisions[snap[6]:]
         st.prefix = snap[7]
         st.pending = snap[8]
+        st.decided = snap[9]
+        st.cond_defs = snap[10]
 
 
 def explore(st, fn):
@@ -530,6 +554,7 @@ class Verifier:
             outcome = None
             try:
                 ctx = self.make_ctx(c, st, combo, ip)
+                st.concretise = (lambda st=st, ctx=ctx: lambda m: concretise_args(st, ctx, m))()
                 pre_writes = len(st.writes)
                 try:
                     arglist = [ctx.args[p] for p, _ in c.params]
@@ -537,7 +562,7 @@ class Verifier:
                     outcome = ('return', val)
                 except Raised as r:
                     outcome = ('raise', r.cls)
-            except Infeasible:
+            except (Infeasible, CutPath):
                 outcome = None
             except OutOfSubset as e:
                 results.append(Result(pname + '#subset', 'undecided', detail='out of subset: %s' % e, kind='engine'))
@@ -643,10 +668,11 @@ class Verifier:
 
 
 # give State an immediate-obligation facility
-def _oblige(self, name, goal, info=None):
+def _oblige(self, name, goal, info=None, exact=True):
     if not hasattr(self, 'checked'):
         self.checked = []
-    res = check_goal(self, name, goal if not isinstance(goal, SBool) else goal.t, kind='callsite')
+    res = check_goal(self, name, goal if not isinstance(goal, SBool) else goal.t, exact=exact, kind='callsite',
+                     concretise=getattr(self, 'concretise', None))
     self.checked.append((name, res))
     if isinstance(goal, bool):
         if not goal:
@@ -689,6 +715,8 @@ def concretise_value(st, v, m):
         return type(v)(concretise_value(st, x, m) for x in v)
     if isinstance(v, dict):
         return {k: concretise_value(st, x, m) for k, x in v.items()}
+    if isinstance(v, SCond):
+        return concretise_value(st, v.a if z3.is_true(ev(v.cond)) else v.b, m)
     if isinstance(v, (SFloat, SOpaque)):
         return {'__abstract__': getattr(v, 'kind', 'float')}
     return v
